@@ -4,7 +4,8 @@
 #  (3) the demonstration fails with the patch. usage: confirm_seed.sh <dir with patch.diff + seeded_demo.rs>
 D="$1"; W=/tmp/confirm/$(basename "$D")-$$
 mkdir -p /tmp/confirm; git -C /repo worktree add -q --detach "$W" HEAD || exit 2
-export CARGO_NET_OFFLINE=true CARGO_TARGET_DIR=/tmp/confirm/target
+export CARGO_NET_OFFLINE=true CARGO_TARGET_DIR=/tmp/confirm/target${DEMO_RUSTFLAGS:+-flags}
+[ -n "${DEMO_RUSTFLAGS:-}" ] && export RUSTFLAGS="$DEMO_RUSTFLAGS"
 cp "$D/seeded_demo.rs" "$W/tests/seeded_demo.rs"
 cd "$W"
 if cargo test --offline --test seeded_demo >"$W/demo0.log" 2>&1; then a=pass; else a=FAIL; fi
